@@ -387,7 +387,9 @@ class TlRegistrator:
 
     @staticmethod
     def clear(schema: str) -> str:
-        return schema.replace(';', '').replace('(', '').replace(')', '')
+        for ch in ';(){}':
+            schema = schema.replace(ch, '')
+        return ' '.join(schema.split())
 
     @staticmethod
     def crc32(schema: str) -> int:
